@@ -165,9 +165,18 @@ _EMPTY = {}
 
 def cart_contents_empty(w):
     if not _EMPTY:
-        from pico8.game.game import Game
+        # the empty default = what a fresh `p8tool` process starts from: computed in a separate interpreter, so that nothing this
+        # (long-lived) process has loaded or edited before can leak into the reference
+        import subprocess
+        import sys
+        from common import REPO
         p = os.path.join(w.ctx.tmp, 'empty_ref.p8')
-        w.gfile.to_file(Game.make_empty_game(), p)
+        code = ('import sys; sys.path.insert(0, %r); sys.dont_write_bytecode = True\n'
+                'from pico8.game.game import Game; from pico8.game import file\n'
+                'file.to_file(Game.make_empty_game(), %r)\n' % (REPO, p))
+        r = subprocess.run([sys.executable, '-c', code], capture_output=True, text=True)
+        if r.returncode != 0 or not os.path.exists(p):
+            raise RuntimeError('reference empty cart could not be produced: ' + r.stderr[-300:])
         _EMPTY.update(cart_contents(p))
     return _EMPTY
 
@@ -180,6 +189,13 @@ def run(ctx, res):
                 'distinct non-trivial = distinct (assignment, OUT state, OUT format)')
     w = World(ctx, rng)
     lines, expect, cases = [], [], []
+    # history: this process has already created, loaded and edited carts before the first build (a long-lived tool or library user);
+    # nothing of that may show up in what `build` treats as the empty default or as unspecified sections of a new OUT
+    first = w.new_cart('.p8', with_label=True)
+    gfirst = w.gfile.from_file(first)
+    gfirst.gfx.set_sprite(0, [[1, 2, 3]])
+    gfirst.sfx.set_note(0, 0, pitch=12, waveform=3, volume=5, effect=1)
+    res.count('history-before-first-build')
     opts = ['u', 'p8', 'png', 'e']
     if ctx.tier == 'thorough':
         assigns = [dict(zip(SECS, t)) for t in itertools.product(opts, repeat=6)]
